@@ -5,6 +5,7 @@ No protocol model here — net/http semantics, QPACK, gzip and the QUIC connecti
 not modelled; this file only states the expected observation.
 -/
 import Uquic.Spec.H3Mon
+import Uquic.Model.H3.Glue
 
 namespace Uquic.Spec.H3Echo
 open Uquic.Spec.H3Mon
@@ -28,6 +29,12 @@ structure Exch where
   bf : Option Nat := none
   /-- `some i`: HEAD twin of exchange `i` -/
   tw : Option Nat := none
+  /-- request trailers announced in the Trailer field: 0 none, 1 all, 2 only the first name -/
+  ta : Nat := 1
+  /-- `some (n, seed)`: the handler declares the regular payload as Content-Length and sends `n` more bytes -/
+  ov : Option (Nat × Nat) := none
+  /-- the client asks for gzip itself -/
+  ae : Bool := false
 deriving Repr, Inhabited
 
 def parseKVs (s : String) : List (String × String) :=
@@ -59,6 +66,24 @@ def hex16 (x : UInt64) : String :=
 
 def bodySig (bs : List Nat) : String := s!"{bs.length}:{hex16 (fnv64 bs)}"
 
+/-- the generated field value `*<len>.<seed>` stands for (character codes) -/
+def padCodes (n seed : Nat) : List Nat :=
+  (List.range n).map fun i =>
+    let k := (seed + i * 7 + i / 13) % 36
+    if k < 26 then 97 + k else 48 + (k - 26)
+
+/-- a field value as the observer reports it: generated values expanded, long ones as `#len.fnv64` -/
+def viewVal (v : String) : String :=
+  if v.startsWith "*" then
+    match (v.drop 1).toString.splitOn "." with
+    | [a, b] =>
+      let cs := padCodes (a.toNat?.getD 0) (b.toNat?.getD 0)
+      if cs.length ≤ 40 then String.ofList (cs.map Char.ofNat) else s!"#{cs.length}.{hex16 (fnv64 cs)}"
+    | _ => v
+  else v
+
+def viewKVs (l : List (String × String)) : List (String × String) := l.map fun kv => (kv.1, viewVal kv.2)
+
 def Exch.hasReqBody (e : Exch) : Bool := e.method == "POST" || e.method == "PUT"
 def Exch.noRespBody (e : Exch) : Bool := e.method == "HEAD" || e.status == 204 || e.status == 304
 
@@ -70,23 +95,46 @@ def Exch.srvView (e : Exch) (implB : String) : String :=
   let body := if e.hasReqBody then pattern e.bLen e.bSeed else []
   let tr := if e.hasReqBody then sortByName e.t else []
   match e.bf with
-  | some _ => s!"srv m={e.method} p={e.path} h={fmtKVs (reqHeaderView e.h)} b={implB} t=- rerr=1"
-  | none => s!"srv m={e.method} p={e.path} h={fmtKVs (reqHeaderView e.h)} b={bodySig body} t={fmtKVs tr}"
+  | some _ => s!"srv m={e.method} p={e.path} h={fmtKVs (reqHeaderView (viewKVs e.h))} b={implB} t=- rerr=1"
+  | none => s!"srv m={e.method} p={e.path} h={fmtKVs (reqHeaderView (viewKVs e.h))} b={bodySig body} t={fmtKVs tr}"
 
 /-- the Content-Length header the client must see, where the exchange determines it: the handler
     neither sets it nor flushes, no gzip, a status that allows a body — then a response below the
     4096-byte small-response limit, and every HEAD response, announces exactly the bytes the handler
     wrote; a larger streamed response announces none. `none`: not determined by the exchange. -/
 def Exch.autoContentLength (e : Exch) : Option String :=
-  if e.flush || e.gz || e.status == 204 || e.status == 304 then none
+  if e.flush || e.gz || e.ov.isSome || e.status == 204 || e.status == 304 then none
   else if e.method == "HEAD" then some (toString e.rbLen)
   else if e.rbLen < 4096 then some (toString e.rbLen) else some "-"
 
+open Uquic.Model.H3.Glue in
+/-- the transport asked for gzip on its own (the driver never disables compression, sends no Range) -/
+def Exch.reqGzip (e : Exch) : Bool := requestedGzip false e.method e.ae false
+
+/-- the handler compresses: the exchange says so and the request carries Accept-Encoding: gzip -/
+def Exch.zipped (e : Exch) : Bool := e.gz && (e.reqGzip || e.ae)
+
+open Uquic.Model.H3.Glue in
+/-- the tail of `ReadResponse` for this exchange.  `implCl` is the Content-Length field as the client
+    reports it (a witness: whether the server adds one depends on its small-response buffering); when
+    the response is decompressed transparently the field is gone and the limit is not observable here -/
+def Exch.respOut (e : Exch) (implCl : String) : RespOut :=
+  let transparent := e.reqGzip && e.zipped
+  readResponseTail { status := e.status, declared := if transparent || implCl == "-" then none else implCl.toNat?,
+                     ceGzip := e.zipped, requestedGzip := e.reqGzip, isConnect := false }
+
 /-- what the client must see (`implCl`: the Content-Length header as reported, a witness judged by the
-    monitors `auto_content_length` and `head_equals_get_headers`) -/
+    monitors `auto_content_length` and `head_equals_get_headers`).  Round 4: res.ContentLength,
+    res.Uncompressed and the Content-Encoding field follow the model of ReadResponse's tail; a response
+    that carries more DATA than it declared delivers exactly the declared part and then fails. -/
 def Exch.cliView (e : Exch) (implCl : String) : String :=
   let body := if e.noRespBody then [] else pattern e.rbLen e.rbSeed
-  let tr := if e.noRespBody then [] else sortByName e.rt
-  s!"cli st={e.status} i={e.info} h={fmtKVs (sortByName e.rh)} b={bodySig body} t={fmtKVs tr} err=- cl={implCl}"
+  let tr := if e.noRespBody || e.ov.isSome then [] else sortByName e.rt
+  let o := e.respOut implCl
+  let cl := if o.keepContentLength then implCl else "-"
+  let ce := if e.zipped && o.keepContentEncoding then "gzip" else "-"
+  let err := if e.ov.isSome then "E:toomuch" else "-"
+  let unc := if o.uncompressed then 1 else 0
+  s!"cli st={e.status} i={e.info} h={fmtKVs (sortByName (viewKVs e.rh))} b={bodySig body} t={fmtKVs tr} err={err} cl={cl} rcl={o.contentLength} unc={unc} ce={ce}"
 
 end Uquic.Spec.H3Echo
